@@ -349,6 +349,12 @@ def judge_text(text, root, labels):
     for k, vv in res.items():
         if not isinstance(vv, tuple) or type(vv[0]) is not bool:
             raise Violation("verdict-shape", repr(vv)[:200])
+    try:
+        res_again = cert.validate_and_get_values(root)
+    except Exception as e:
+        raise Violation("second-validation-raises:%s" % type(e).__name__, str(e)[:200])
+    if norm(res_again) != norm(res):
+        raise Violation("second-validation-differs", "%r vs %r" % (norm(res), norm(res_again)))
     anyvalid = any(vv[0] for vv in res.values())
     labels.append("some-target-valid" if anyvalid else "no-target-valid")
     # save / load round trip
